@@ -1,6 +1,7 @@
 mod arith;
 mod instr;
 mod mapdrv;
+mod serdedrv;
 mod setdrv;
 mod tabledrv;
 
